@@ -342,6 +342,7 @@ fn single_player_iter<'a, const FIRST: bool>(
 
     // update all infosets
     work.payoffs.clear();
+    work.work.clear();
     chance_infosets
         .iter_mut()
         .for_each(|info| info.get_mut().unwrap().advance());
